@@ -351,3 +351,21 @@ pub(crate) fn verif_constraints<'a>() -> impl nom::Parser<
 > {
     constraint::constraints
 }
+
+/// Verification hook (feature `verif-hooks`): what `skip_ws_and_comments` leaves of `src`
+/// (its length in bytes), and the result of the `comment` parser (comment text, remaining length).
+#[cfg(feature = "verif-hooks")]
+pub(crate) fn verif_skip_trivia(src: &str) -> Option<usize> {
+    common::skip_ws_and_comments(nom::combinator::rest)
+        .parse(crate::input::Input::from(src))
+        .ok()
+        .map(|(_, rest)| rest.len())
+}
+
+#[cfg(feature = "verif-hooks")]
+pub(crate) fn verif_comment(src: &str) -> Option<(String, usize)> {
+    common::comment
+        .parse(crate::input::Input::from(src))
+        .ok()
+        .map(|(rest, c)| (c.to_string(), rest.len()))
+}
